@@ -551,7 +551,14 @@ func c14JudgeValue(pool *sb.Pool, rec *sb.Rec, v *cval) []*failure {
 					} else if eq, why := jsonEqualTree(v, t2); !eq {
 						if lbl == "json.rt.obj" {
 							// one root cause for every value class: key without the class
-							out = append(out, &failure{Key: "cell:json_decode:object-mode", Detail: fmt.Sprintf("json_encode(json_decode(%q)) = %q: %s", clip(js, 100), clip(rt, 100), why), Case: c14Case{Kind: "value", Val: in, Src: c14ValueScript}})
+							root := "scalar"
+							switch {
+							case strings.HasPrefix(js, "{"):
+								root = "object"
+							case strings.HasPrefix(js, "["):
+								root = "array"
+							}
+							out = append(out, &failure{Key: "cell:json_decode:object-mode:root-" + root, Detail: fmt.Sprintf("json_encode(json_decode(%q)) = %q: %s", clip(js, 100), clip(rt, 100), why), Case: c14Case{Kind: "value", Val: in, Src: c14ValueScript}})
 						} else {
 							mk("cell:json_decode:"+lbl, fmt.Sprintf("json_encode(json_decode(%q, true)) = %q: %s", clip(js, 100), clip(rt, 100), why))
 						}
@@ -711,7 +718,19 @@ func c14JudgeDecode(pool *sb.Pool, rec *sb.Rec, doc string, origin string) []*fa
 					key = "cell:json_decode:reencode:assoc:has-object"
 				}
 				if lbl == "jdo.enc" {
-					key = "cell:json_decode:object-mode"
+					// by what the document is at its root (object mode of a document that is not an object is a
+					// listed finding; it must not hide what happens inside objects)
+					root := "scalar"
+					switch tr := strings.TrimLeft(doc, " \t\r\n"); {
+					case strings.HasPrefix(tr, "{"):
+						root = "object"
+					case strings.HasPrefix(tr, "["):
+						root = "array"
+					}
+					key = "cell:json_decode:object-mode:root-" + root
+					if root == "object" && hasIntBeyondInt64(tree) {
+						key = "cell:json_decode:object-mode:int-beyond-int64"
+					}
 				}
 				if !ok {
 					mk(key, fmt.Sprintf("json_encode(json_decode(doc)) is %s %s", clip(o[lbl], 60), clip(o["!jd"]+o["!jdo"], 100)))
@@ -781,6 +800,31 @@ func hasOverflowingNumber(t any) bool {
 	return false
 }
 
+// hasIntBeyondInt64: an integer literal (no fraction, no exponent) that does not fit int64.
+func hasIntBeyondInt64(t any) bool {
+	switch x := t.(type) {
+	case json.Number:
+		if strings.ContainsAny(x.String(), ".eE") {
+			return false
+		}
+		_, err := strconv.ParseInt(x.String(), 10, 64)
+		return err != nil
+	case []any:
+		for _, e := range x {
+			if hasIntBeyondInt64(e) {
+				return true
+			}
+		}
+	case map[string]any:
+		for _, e := range x {
+			if hasIntBeyondInt64(e) {
+				return true
+			}
+		}
+	}
+	return false
+}
+
 func jsonTreesEqual(a, b any) bool {
 	switch x := a.(type) {
 	case nil:
@@ -798,10 +842,10 @@ func jsonTreesEqual(a, b any) bool {
 		}
 		fx, e1 := strconv.ParseFloat(x.String(), 64)
 		fy, e2 := strconv.ParseFloat(y.String(), 64)
-		_, xi := strconv.ParseInt(x.String(), 10, 64)
-		_, yi := strconv.ParseInt(y.String(), 10, 64)
+		ix, xi := strconv.ParseInt(x.String(), 10, 64)
+		iy, yi := strconv.ParseInt(y.String(), 10, 64)
 		if xi == nil && yi == nil {
-			return false // both exact ints but different text
+			return ix == iy // both exact ints: "-0" and "0" are the same value, other texts differ in value
 		}
 		return e1 == nil && e2 == nil && fx == fy
 	case string:
